@@ -45,6 +45,7 @@ type L2Genesis struct {
 	Opchild       *opchildtypes.GenesisState
 	CurrencyPairs []string // e.g. "BTC/USD"
 	ExtraMetadata []string // denoms that already have bank metadata at genesis (besides the native token)
+	ModuleFunds   sdk.Coins // genesis balance of the opchild module account (an operator may pre-fund it)
 	AppState      map[string]json.RawMessage
 	InitialHeight int64
 }
@@ -365,6 +366,10 @@ func (n *L2) initChain(gen *L2Genesis) {
 		// the native gas token has bank metadata, as on any real chain
 		bg.DenomMetadata = append(bg.DenomMetadata, banktypes.Metadata{Base: "umin", Display: "min", Symbol: "MIN", Name: "min token",
 			DenomUnits: []*banktypes.DenomUnit{{Denom: "umin", Exponent: 0}, {Denom: "min", Exponent: 6}}})
+		if !gen.ModuleFunds.IsZero() {
+			bg.Balances = append(bg.Balances, banktypes.Balance{Address: authtypes.NewModuleAddress(opchildtypes.ModuleName).String(), Coins: gen.ModuleFunds})
+			bg.Supply = bg.Supply.Add(gen.ModuleFunds...)
+		}
 		for _, d := range gen.ExtraMetadata {
 			bg.DenomMetadata = append(bg.DenomMetadata, banktypes.Metadata{Base: d, Display: d, Symbol: d, Name: d, DenomUnits: []*banktypes.DenomUnit{{Denom: d, Exponent: 0}}})
 		}
